@@ -349,7 +349,11 @@ def r5_defaults(repo, report):
     def constraint(rv):
         return not (rv["anywhere"] and rv["front"])
 
-    mism, n, _ = check_table(rows, roles, exp, outcome, constraint=constraint, ignore_atoms=[f"isnone:{ps[2].upper()}"])
+    # parameters that are rejected for linked adapters ('anywhere', a file-level 'rightmost') end in ValueError (C18.R3);
+    # the defaults table is about the specifications that are accepted
+    rejected_keys = [k for r in rows for k in r.valuation if k.startswith("in:'anywhere':") or k.startswith("in:'rightmost':")]
+    rows = [r for r in rows if not any(r.valuation.get(k) is True for k in rejected_keys)]
+    mism, n, _ = check_table(rows, roles, exp, outcome, constraint=constraint, ignore_atoms=[f"isnone:{ps[2].upper()}"] + sorted(set(rejected_keys)))
     report.ob("C09.R5", "required/optional defaults", not mism, facts={"rows": len(rows), "mismatches": mism[:4]},
               expected="-g: (required, required); -a: (front restricted?, back restricted?); an explicit 'required' entry of that side's parameters overrides (pop with the default); -b raises", loc=repo.loc(fn), cases=n,
               why=(f"for {mism[0]['inputs']}: code {mism[0]['code']}, expected {mism[0]['expected']}" if mism else ""))
